@@ -6,6 +6,7 @@ import sys
 import time
 
 VERIF = os.path.dirname(os.path.dirname(os.path.abspath(__file__)))
+EVDIR = os.environ.get("VERIF_EVIDENCE_DIR") or os.path.join(VERIF, "evidence")
 REPO = os.environ.get("VERIF_REPO", "/repo")
 
 
@@ -127,8 +128,8 @@ def finish(prop, tier, results, canary_results, explanation, assumptions, t0, fa
              "sample": cr["fired"][:2]}
         )
     wall = time.time() - t0
-    os.makedirs(os.path.join(VERIF, "evidence", "replay"), exist_ok=True)
-    replay = os.path.join(VERIF, "evidence", "replay", "%s.txt" % prop)
+    os.makedirs(os.path.join(EVDIR, "replay"), exist_ok=True)
+    replay = os.path.join(EVDIR, "replay", "%s.txt" % prop)
     with open(replay, "w") as fh:
         fh.write("property %s tier %s repo %s\n" % (prop, tier, repo_commit()))
         for v in violations:
@@ -168,7 +169,7 @@ def finish(prop, tier, results, canary_results, explanation, assumptions, t0, fa
         "wall_s": round(wall, 2),
         "violations": len(violations),
     }
-    with open(os.path.join(VERIF, "evidence", "%s.json" % prop), "w") as fh:
+    with open(os.path.join(EVDIR, "%s.json" % prop), "w") as fh:
         json.dump(ev, fh, indent=1)
     # output
     for row in rule_rows:
